@@ -221,6 +221,13 @@ func c14Life(c *mon.Ctx, r *mon.Rand) {
 							}
 							hh := rep.AllocateHistogram(fmt.Sprintf("hdyn%d", pr.Intn(6)), ht, tally.ValueBuckets{1, 2, 3})
 							hh.ValueBucket(1, 2).ReportSamples(1)
+						} else if pr.Chance(1, 4) {
+							// histograms with 62-65, 127-129 and 255-257 bounds (one more
+							// bucket than bounds: tables sized by a power of two)
+							n := []int{62, 63, 64, 65, 127, 128, 129, 255, 256, 257}[pr.Intn(10)]
+							hb := rep.AllocateHistogram(fmt.Sprintf("hbig%d", n), map[string]string{"n": fmt.Sprint(n)}, tally.MustMakeLinearValueBuckets(0, 1, n))
+							hb.ValueBucket(float64(n-2), float64(n-1)).ReportSamples(1)
+							hb.ValueBucket(float64(n-1), math.MaxFloat64).ReportSamples(1)
 						} else {
 							rep.AllocateCounter(fmt.Sprintf("dyn%d", pr.Intn(20)), map[string]string{"p": fmt.Sprint(p)}).ReportCount(1)
 						}
